@@ -1,12 +1,937 @@
-// Package c19 decides C19 (see /verif/DESIGN.md §7).
+// Package c19 decides C19: the proposer key file protects the key and yields a working,
+// matching signer (see /verif/DESIGN.md §7).
+//
+// The real code of /repo/pkg/signer/file (and the noop signer, types.KeyAddress, types.NewSigner)
+// is executed in child processes (child.go, pool.go); this file generates the cases and judges the
+// observations with standard-library Ed25519 / SHA-256 / JSON only (ref.go).
 package c19
 
-import "verifharness/vk"
+import (
+	"bytes"
+	"crypto/ed25519"
+	"encoding/base64"
+	"encoding/hex"
+	"encoding/json"
+	"fmt"
+	"math/rand"
+	"os"
+	"path/filepath"
+	"sort"
+	"strings"
+	"sync"
+
+	"verifharness/vk"
+	"verifharness/world"
+)
 
 // Level is the verification level claimed for this property.
-const Level = "exploration"
+const Level = "fault_enumeration"
+
+// Finding ids (DESIGN.md §8). The third one was found by this check.
+const (
+	idLegacyEmpty = "C19-legacy-empty-passphrase"
+	idPubkey      = "C19-pubkey-unchecked"
+	idNonceLen    = "C19-nonce-length-panic"
+)
+
+// base is one genuine key file together with everything the oracle knows about it.
+type base struct {
+	Name  string // e.g. created/32-bytes
+	Kind  string // created | imported | legacy
+	Class string // passphrase class of the sealing passphrase
+	Core  bool   // one of the six passphrase classes of the statement (enumerated completely in thorough)
+	File  []byte
+	Pass  int    // index of the sealing passphrase
+	Pub   []byte // 32 bytes
+	Priv  []byte // 64 bytes (nil if it could not be obtained)
+	ref   refKeyFile
+	spans []span
+}
+
+// meta is the parent-side description of a case.
+type meta struct {
+	c      *wireCase
+	Group  string // chain | same-pass | wrong-pass | legacy-equivalent-pass | mut-flip | mut-00 | mut-ff | mut-trunc | mut-json
+	Desc   string
+	Expect string // same | fail | fail-or-same | observe
+	b      *base
+	// trigger regions of the known findings, decided from the generated case alone
+	T1, T2, T3 bool
+	filePub    []byte
+	nontrivial bool
+	qClass     string // chain: passphrase class of the import
+}
+
+func (m *meta) region() string {
+	var t []string
+	if m.T1 {
+		t = append(t, "legacy+empty-passphrase")
+	}
+	if m.T2 {
+		t = append(t, "foreign-pub_key")
+	}
+	if m.T3 {
+		t = append(t, "nonce-length")
+	}
+	if len(t) == 0 {
+		return "clean"
+	}
+	return "trigger:" + strings.Join(t, "+")
+}
+
+type driver struct {
+	r      *vk.Run
+	passes [][]byte
+	metas  map[int]*meta
+	nextID int
+	findN  map[string]int
+	mu     sync.Mutex
+}
+
+func (d *driver) addPass(p []byte) int {
+	for i, q := range d.passes {
+		if bytes.Equal(p, q) {
+			return i
+		}
+	}
+	d.passes = append(d.passes, append([]byte{}, p...))
+	return len(d.passes) - 1
+}
+
+func (d *driver) newCase(m *meta, op string, file []byte, has bool, pass int, msg []byte) *meta {
+	d.nextID++
+	m.c = &wireCase{ID: d.nextID, Op: op, File: file, Has: has, Pass: pass, Pas2: -1, Msg: msg}
+	d.metas[m.c.ID] = m
+	return m
+}
+
+// classify decides the trigger regions of a (file, passphrase) case relative to its base file.
+func (m *meta) classify(file, pass []byte) {
+	k, ok := parseRef(file)
+	if !ok {
+		return
+	}
+	m.filePub = k.Pub
+	m.T1 = len(k.Salt) == 0 && len(pass) == 0
+	m.T3 = len(k.Nonce) != 12
+	if m.b != nil {
+		o := m.b.ref
+		m.T2 = bytes.Equal(k.Enc, o.Enc) && bytes.Equal(k.Nonce, o.Nonce) && bytes.Equal(k.Salt, o.Salt) &&
+			len(k.Pub) == 32 && !bytes.Equal(k.Pub, o.Pub)
+	}
+}
+
+func (d *driver) witness(m *meta, st *stepObs, extra map[string]any) map[string]any {
+	w := map[string]any{
+		"op": m.c.Op, "group": m.Group, "mutation": m.Desc, "expect": m.Expect, "region": m.region(),
+		"file_hex": vk.Hex(m.c.File), "file_text": fmt.Sprintf("%q", trunc(m.c.File, 700)),
+		"passphrase_hex": vk.Hex(d.passes[m.c.Pass]), "message_hex": vk.Hex(m.c.Msg),
+	}
+	if m.b != nil {
+		w["base"] = m.b.Name
+		w["base_file_hex"] = vk.Hex(m.b.File)
+		w["base_passphrase_hex"] = vk.Hex(d.passes[m.b.Pass])
+		w["base_pub_hex"] = vk.Hex(m.b.Pub)
+	}
+	if st != nil {
+		w["observed"] = st
+	}
+	for k, v := range extra {
+		w[k] = v
+	}
+	return w
+}
+
+func trunc(b []byte, n int) []byte {
+	if len(b) > n {
+		return b[:n]
+	}
+	return b
+}
+
+// finding reports a failure of a predicted shape inside its trigger region. While the id is not
+// listed as known every occurrence would be a VIOLATION; only the first two per id are reported
+// that way, the rest are counted.
+func (d *driver) finding(id, clause, detail string, w any) {
+	d.r.Count("finding_shape:"+id, 1)
+	if d.r.IsKnown(id) {
+		d.r.Finding(id, clause, detail, w)
+		return
+	}
+	d.mu.Lock()
+	d.findN[id]++
+	n := d.findN[id]
+	d.mu.Unlock()
+	if n <= 2 {
+		d.r.Finding(id, clause, detail, w)
+	}
+}
+
+func verifies(pub, msg, sig []byte) bool {
+	return len(pub) == ed25519.PublicKeySize && ed25519.Verify(ed25519.PublicKey(pub), msg, sig)
+}
+
+// usable judges a signer that the code under test handed out: signatures verify under the key it
+// reports, the three address derivations agree. wantPub (optional) is the key it must be.
+func (d *driver) usable(m *meta, st *stepObs, wantPub []byte, what string) bool {
+	r := d.r
+	ok := true
+	if st.NilSig || st.PubErr != "" || st.SignErr != "" || st.AddrErr != "" {
+		r.Violation("signature-verifies", fmt.Sprintf("%s: signer returned without error is not usable: nil=%v pubErr=%q signErr=%q addrErr=%q", what, st.NilSig, st.PubErr, st.SignErr, st.AddrErr), d.witness(m, st, nil))
+		return false
+	}
+	r.Hit("signature-verifies")
+	if !verifies(st.Pub, m.c.Msg, st.Sig) {
+		r.Violation("signature-verifies", fmt.Sprintf("%s: signature does not verify under the public key the signer reports (%x)", what, st.Pub), d.witness(m, st, nil))
+		ok = false
+	}
+	if wantPub != nil {
+		r.Hit("same-key")
+		if !bytes.Equal(st.Pub, wantPub) {
+			r.Violation("same-key", fmt.Sprintf("%s: signer reports public key %x, the key that was saved is %x", what, st.Pub, wantPub), d.witness(m, st, nil))
+			ok = false
+		}
+	}
+	r.Hit("address-matches")
+	if len(st.Addr) == 0 || !bytes.Equal(st.Addr, st.KeyAddr) || !bytes.Equal(st.Addr, st.NSAddr) {
+		r.Violation("address-matches", fmt.Sprintf("%s: signer address %x, types.KeyAddress(pub) %x, types.NewSigner(pub).Address %x", what, st.Addr, st.KeyAddr, st.NSAddr), d.witness(m, st, nil))
+		ok = false
+	}
+	return ok
+}
+
+// panicked handles a panic / dead child. It returns true when the step panicked.
+func (d *driver) panicked(m *meta, o *caseObs, st *stepObs) bool {
+	text := ""
+	switch {
+	case o.Died:
+		text = "child process died: " + o.DiedText
+	case st != nil && st.Panic != "":
+		text = st.Panic
+	default:
+		return false
+	}
+	step := m.c.Op
+	if st != nil {
+		step = st.Step
+	}
+	detail := fmt.Sprintf("%s on base %s [%s; %s] panicked: %s", step, baseName(m), m.Group, m.Desc, oneLine(text, 300))
+	if st != nil && st.Stack != "" {
+		detail += " @ " + oneLine(st.Stack, 300)
+	}
+	switch {
+	case m.T1 && strings.Contains(text, "divide by zero"):
+		d.finding(idLegacyEmpty, "no-panic", detail, d.witness(m, st, nil))
+	case m.T3 && strings.Contains(text, "incorrect nonce length"):
+		d.finding(idNonceLen, "no-panic", detail, d.witness(m, st, nil))
+	default:
+		d.r.Violation("no-panic", detail, d.witness(m, st, map[string]any{"child_stderr": o.DiedText}))
+	}
+	return true
+}
+
+func baseName(m *meta) string {
+	if m.b == nil {
+		return "-"
+	}
+	return m.b.Name
+}
+
+func oneLine(s string, n int) string {
+	s = strings.ReplaceAll(s, "\n", " | ")
+	if len(s) > n {
+		s = s[:n] + "…"
+	}
+	return s
+}
+
+// judge decides one load / export case of round 2.
+func (d *driver) judge(m *meta, o caseObs) string {
+	r := d.r
+	if o.Timeout {
+		r.Inconclusive(fmt.Sprintf("case %d (%s %s): %s", m.c.ID, m.Group, m.Desc, o.DiedText))
+		return "inconclusive"
+	}
+	var st *stepObs
+	if len(o.Steps) > 0 {
+		st = &o.Steps[len(o.Steps)-1]
+	}
+	r.Hit("no-panic")
+	if d.panicked(m, &o, st) {
+		return "panic"
+	}
+	if st == nil || !st.Called {
+		r.Inconclusive(fmt.Sprintf("case %d: harness could not run the step: %+v", m.c.ID, st))
+		return "inconclusive"
+	}
+	clause := map[string]string{"same": "correct-passphrase-loads-same-key", "fail": "wrong-passphrase-fails", "fail-or-same": "mutation-fails-or-same-key", "observe": ""}[m.Expect]
+	if m.Expect == "observe" {
+		// legacy format: a passphrase with the same documented derived key is the same secret
+		if st.OK {
+			r.Count("legacy_equivalent_passphrase_accepted", 1)
+		} else {
+			r.Count("legacy_equivalent_passphrase_rejected", 1)
+		}
+		return "observed"
+	}
+	r.Hit(clause)
+	if !st.OK {
+		if m.Expect == "same" {
+			r.Violation(clause, fmt.Sprintf("%s of %s with the passphrase it was saved under fails: %s", m.c.Op, baseName(m), st.Err), d.witness(m, st, nil))
+			return "error"
+		}
+		r.Count("rejected:"+m.Group, 1)
+		return "error"
+	}
+	// the call succeeded
+	if m.c.Op == "export" {
+		same := m.b.Priv != nil && bytes.Equal(st.Priv, m.b.Priv)
+		switch {
+		case m.Expect == "fail":
+			r.Violation(clause, fmt.Sprintf("export of %s succeeds with a different passphrase (%s); same key=%v", baseName(m), m.Desc, same), d.witness(m, st, nil))
+		case !same:
+			r.Violation(clause, fmt.Sprintf("export of %s [%s] returns a key that is not the saved one", baseName(m), m.Desc), d.witness(m, st, nil))
+		default:
+			r.Count("same-key:"+m.Group, 1)
+		}
+		return "exported"
+	}
+	same := bytes.Equal(st.Pub, m.b.Pub)
+	switch m.Expect {
+	case "fail":
+		r.Violation(clause, fmt.Sprintf("load of %s succeeds with a different passphrase (%s); same key=%v", baseName(m), m.Desc, same), d.witness(m, st, nil))
+	case "same":
+		if d.usable(m, st, m.b.Pub, "load of "+baseName(m)) && m.b.Kind == "legacy" {
+			r.Hit("legacy-file-loads")
+		}
+	case "fail-or-same":
+		sigOK := verifies(st.Pub, m.c.Msg, st.Sig)
+		if same && sigOK {
+			d.usable(m, st, m.b.Pub, "load of mutated "+baseName(m))
+			r.Count("same-key:"+m.Group, 1)
+			break
+		}
+		detail := fmt.Sprintf("load of %s [%s] succeeds and yields a signer reporting public key %x (saved key %x); signature verifies under reported key=%v, under saved key=%v",
+			baseName(m), m.Desc, st.Pub, m.b.Pub, sigOK, verifies(m.b.Pub, m.c.Msg, st.Sig))
+		if m.T2 && !st.NilSig && bytes.Equal(st.Pub, m.filePub) && !sigOK && st.SignErr == "" {
+			d.finding(idPubkey, clause, detail, d.witness(m, st, nil))
+		} else {
+			r.Violation(clause, detail, d.witness(m, st, nil))
+		}
+	}
+	return "loaded"
+}
+
+func hidesKey(file, priv []byte) bool {
+	if len(priv) < 32 {
+		return true
+	}
+	seed := priv[:32]
+	for _, needle := range [][]byte{
+		seed,
+		[]byte(hex.EncodeToString(seed)),
+		[]byte(strings.ToUpper(hex.EncodeToString(seed))),
+	} {
+		if bytes.Contains(file, needle) {
+			return false
+		}
+	}
+	// base64 of the seed at any of the three alignments, and of the whole 64-byte key
+	for _, enc := range []*base64.Encoding{base64.StdEncoding, base64.URLEncoding} {
+		for off := 0; off < 3; off++ {
+			s := enc.EncodeToString(append(make([]byte, off), seed...))
+			// drop the characters influenced by the padding zeros and by what follows
+			lo, hi := (off*8+5)/6+1, len(strings.TrimRight(s, "="))-2
+			if hi-lo >= 16 && bytes.Contains(file, []byte(s[lo:hi])) {
+				return false
+			}
+		}
+	}
+	return true
+}
+
+// judgeChain decides a create/load/export/import/load/noop chain and returns the bases it yields.
+func (d *driver) judgeChain(m *meta, o caseObs, legacyPriv ed25519.PrivateKey) []*base {
+	r := d.r
+	if o.Timeout {
+		r.Inconclusive(fmt.Sprintf("chain %d (%s): %s", m.c.ID, m.Desc, o.DiedText))
+		return nil
+	}
+	if o.Died {
+		r.Hit("no-panic")
+		d.panicked(m, &o, nil)
+		return nil
+	}
+	steps := map[string]*stepObs{}
+	for i := range o.Steps {
+		st := &o.Steps[i]
+		steps[st.Step] = st
+		r.Hit("no-panic")
+		d.panicked(m, &o, st)
+	}
+	need := func(name string) *stepObs {
+		st := steps[name]
+		if st == nil {
+			return nil
+		}
+		if st.Panic != "" {
+			return nil
+		}
+		if !st.OK {
+			clause := map[string]string{"export": "export-is-the-key", "import": "export-import-preserves-key", "load2": "export-import-preserves-key", "export2": "export-import-preserves-key"}[name]
+			if clause == "" {
+				clause = "correct-passphrase-loads-same-key"
+			}
+			r.Violation(clause, fmt.Sprintf("chain %s: step %s fails on genuine input: %s", m.Desc, name, st.Err), d.witness(m, st, nil))
+			return nil
+		}
+		return st
+	}
+	var pub0, file0 []byte
+	var out []*base
+	if legacyPriv != nil {
+		pub0 = []byte(legacyPriv.Public().(ed25519.PublicKey))
+		file0 = m.c.File
+	} else {
+		cr := need("create")
+		if cr == nil {
+			return nil
+		}
+		d.usable(m, cr, nil, "signer returned by create")
+		pub0, file0 = cr.Pub, cr.File
+		r.Count(fmt.Sprintf("key_file_mode_%o", cr.Mode), 1)
+	}
+	kind := "created"
+	if legacyPriv != nil {
+		kind = "legacy"
+	}
+	b0 := &base{Name: kind + "/" + m.b.Class, Kind: kind, Class: m.b.Class, Core: m.b.Core, File: file0, Pass: m.c.Pass, Pub: pub0}
+	out = append(out, b0)
+	m.b = b0
+	if ld := need("load"); ld != nil {
+		r.Hit("correct-passphrase-loads-same-key")
+		if d.usable(m, ld, pub0, "load after "+kind) && kind == "legacy" {
+			r.Hit("legacy-file-loads")
+		}
+	}
+	ex := need("export")
+	if ex == nil {
+		return out
+	}
+	r.Hit("export-is-the-key")
+	good := len(ex.Priv) == 64 && bytes.Equal(ex.Priv[32:], pub0) &&
+		bytes.Equal(ed25519.NewKeyFromSeed(ex.Priv[:32]).Public().(ed25519.PublicKey), pub0)
+	if legacyPriv != nil {
+		good = good && bytes.Equal(ex.Priv, legacyPriv)
+	}
+	if !good {
+		r.Violation("export-is-the-key", fmt.Sprintf("chain %s: exported private key (%d bytes) is not the private key of the saved public key %x", m.Desc, len(ex.Priv), pub0), d.witness(m, ex, nil))
+		return out
+	}
+	b0.Priv = ex.Priv
+	r.Hit("file-hides-key")
+	if !hidesKey(file0, ex.Priv) {
+		r.Violation("file-hides-key", "the key file contains the private key seed in clear", d.witness(m, ex, nil))
+	}
+	if im := need("import"); im != nil {
+		b1 := &base{Name: "imported/" + m.qClass, Kind: "imported", Class: m.qClass, Core: coreClass[m.qClass], File: im.File, Pass: m.c.Pas2, Pub: pub0, Priv: ex.Priv}
+		r.Hit("file-hides-key")
+		if !hidesKey(im.File, ex.Priv) {
+			r.Violation("file-hides-key", "the imported key file contains the private key seed in clear", d.witness(m, im, nil))
+		}
+		r.Count(fmt.Sprintf("key_file_mode_%o", im.Mode), 1)
+		if l2 := need("load2"); l2 != nil {
+			r.Hit("export-import-preserves-key")
+			if d.usable(m, l2, pub0, "load after export+import") && legacyPriv == nil {
+				out = append(out, b1)
+			}
+		}
+		if e2 := need("export2"); e2 != nil {
+			r.Hit("export-import-preserves-key")
+			if !bytes.Equal(e2.Priv, ex.Priv) {
+				r.Violation("export-import-preserves-key", "export after import returns a different private key", d.witness(m, e2, nil))
+			}
+		}
+	}
+	if np := need("noop"); np != nil {
+		d.usable(m, np, pub0, "noop signer of the exported key")
+		if ld := steps["load"]; ld != nil && ld.OK {
+			r.Hit("address-matches-noop")
+			if !bytes.Equal(np.Addr, ld.Addr) {
+				r.Violation("address-matches-noop", fmt.Sprintf("file signer address %x, noop signer address of the same key %x", ld.Addr, np.Addr), d.witness(m, np, nil))
+			}
+		}
+	}
+	return out
+}
+
+var coreClass = map[string]bool{"empty": true, "1-byte": true, "32-bytes": true, "33-bytes": true, "10000-bytes": true, "non-utf8": true}
+
+type passClass struct {
+	name string
+	p    []byte
+	core bool
+}
+
+func printable(rng *rand.Rand, n int) []byte {
+	const abc = "abcdefghijklmnopqrstuvwxyzABCDEFGHIJKLMNOPQRSTUVWXYZ0123456789 !#$%&()*+,-./:;<=>?@[]^_{|}~"
+	b := make([]byte, n)
+	for i := range b {
+		b[i] = abc[rng.Intn(len(abc))]
+	}
+	if n > 0 {
+		b[0] = abc[rng.Intn(52)] // at least one letter
+	}
+	return b
+}
+
+func classes(rng *rand.Rand, thorough bool) []passClass {
+	rnd := func(n int) []byte { b := make([]byte, n); rng.Read(b); return b }
+	nonutf := append([]byte{0xff, 0xfe, 0x00, 0xc3, 0x28, 0x80, 0xed, 0xa0, 0x80}, rnd(6)...)
+	cs := []passClass{
+		{"empty", []byte{}, true},
+		{"1-byte", printable(rng, 1), true},
+		{"32-bytes", printable(rng, 32), true},
+		{"33-bytes", printable(rng, 33), true},
+		{"10000-bytes", rnd(10000), true},
+		{"non-utf8", nonutf, true},
+	}
+	if thorough {
+		for _, n := range []int{2, 16, 31, 64, 1000} {
+			cs = append(cs, passClass{fmt.Sprintf("%d-bytes", n), printable(rng, n), false})
+		}
+		for i := 0; i < 3; i++ {
+			n := 3 + rng.Intn(200)
+			cs = append(cs, passClass{fmt.Sprintf("binary-%d-bytes", n), rnd(n), false})
+		}
+	}
+	return cs
+}
+
+// ---- case generation over one base file ----------------------------------------------------
+
+func (d *driver) msg(rng *rand.Rand) []byte {
+	b := make([]byte, rng.Intn(48))
+	rng.Read(b)
+	return b
+}
+
+func (d *driver) genWrongPass(rng *rand.Rand, b *base) (out []*meta) {
+	p := d.passes[b.Pass]
+	for _, w := range wrongPasses(rng, p, !d.r.Quick()) {
+		group, expect := "wrong-pass", "fail"
+		if b.Kind == "legacy" && len(w.b) > 0 && bytes.Equal(legacyKey(w.b), legacyKey(p)) {
+			group, expect = "legacy-equivalent-pass", "observe"
+		}
+		pi := d.addPass(w.b)
+		for _, op := range []string{"load", "export"} {
+			m := &meta{Group: group, Desc: w.desc, Expect: expect, b: b, nontrivial: true}
+			m.classify(b.File, w.b)
+			out = append(out, d.newCase(m, op, b.File, true, pi, d.msg(rng)))
+		}
+	}
+	if b.Kind == "legacy" {
+		// passphrases the documented legacy derivation maps to the same key (observed, not judged)
+		k := legacyKey(p)
+		alts := [][]byte{k, append(append([]byte{}, k...), 'x')}
+		for i, a := range alts {
+			if bytes.Equal(a, p) {
+				continue
+			}
+			m := &meta{Group: "legacy-equivalent-pass", Desc: fmt.Sprintf("derived-key-as-passphrase-%d", i), Expect: "observe", b: b, nontrivial: true}
+			out = append(out, d.newCase(m, "load", b.File, true, d.addPass(a), d.msg(rng)))
+		}
+	}
+	return out
+}
+
+type bmut struct {
+	group, desc string
+	file        []byte
+}
+
+func mutByte(f []byte, pos int, v byte) []byte {
+	g := append([]byte{}, f...)
+	g[pos] = v
+	return g
+}
+
+func (d *driver) byteMutations(rng *rand.Rand, b *base) (out []bmut) {
+	f := b.File
+	reg := func(pos int) string { return regionOf(b.spans, pos) }
+	at := func(pos int, allBits bool) {
+		if allBits {
+			for bit := 0; bit < 8; bit++ {
+				out = append(out, bmut{"mut-flip", fmt.Sprintf("pos=%d(%s) flip-bit=%d", pos, reg(pos), bit), mutByte(f, pos, f[pos]^(1<<bit))})
+			}
+		} else {
+			bit := rng.Intn(8)
+			out = append(out, bmut{"mut-flip", fmt.Sprintf("pos=%d(%s) flip-bit=%d", pos, reg(pos), bit), mutByte(f, pos, f[pos]^(1<<bit))})
+		}
+		if f[pos] != 0x00 {
+			out = append(out, bmut{"mut-00", fmt.Sprintf("pos=%d(%s) set=00", pos, reg(pos)), mutByte(f, pos, 0x00)})
+		}
+		if f[pos] != 0xff {
+			out = append(out, bmut{"mut-ff", fmt.Sprintf("pos=%d(%s) set=ff", pos, reg(pos)), mutByte(f, pos, 0xff)})
+		}
+	}
+	trunc := func(n int) {
+		where := "end"
+		if n < len(f) {
+			where = reg(n)
+		}
+		out = append(out, bmut{"mut-trunc", fmt.Sprintf("truncate-to=%d(%s)", n, where), append([]byte{}, f[:n]...)})
+	}
+	if !d.r.Quick() {
+		for pos := range f {
+			at(pos, b.Core && b.Kind != "imported")
+		}
+		for n := 0; n < len(f); n++ {
+			trunc(n)
+		}
+		return out
+	}
+	// quick: stratified sample - every field name, every field value (first, last and random
+	// characters) and the structural characters are hit; truncation at every stratum boundary
+	seen := map[int]bool{}
+	pick := func(pos int) {
+		if pos >= 0 && pos < len(f) && !seen[pos] {
+			seen[pos] = true
+			at(pos, false)
+		}
+	}
+	tl := map[int]bool{}
+	pickT := func(n int) {
+		if n >= 0 && n < len(f) && !tl[n] {
+			tl[n] = true
+			trunc(n)
+		}
+	}
+	var structural []int
+	for _, s := range b.spans {
+		switch {
+		case strings.HasPrefix(s.name, "name:"):
+			for i := 0; i < 3; i++ {
+				pick(s.lo + rng.Intn(s.hi-s.lo))
+			}
+			pickT(s.lo)
+		case strings.HasPrefix(s.name, "value:"):
+			pick(s.lo)
+			pick(s.hi - 1)
+			pick(s.hi - 2)
+			for i := 0; i < 5; i++ {
+				pick(s.lo + rng.Intn(s.hi-s.lo))
+			}
+			pickT(s.lo)
+			pickT(s.lo + rng.Intn(s.hi-s.lo))
+			pickT(s.hi)
+		default:
+			structural = append(structural, s.lo)
+		}
+	}
+	if len(b.spans) == 0 {
+		for i := 0; i < 40; i++ {
+			pick(rng.Intn(len(f)))
+		}
+	}
+	for i := 0; i < 6 && len(structural) > 0; i++ {
+		pick(structural[rng.Intn(len(structural))])
+	}
+	for _, n := range []int{0, 1, 2, len(f) - 1, len(f) - 2} {
+		pickT(n)
+	}
+	for i := 0; i < 4; i++ {
+		pickT(rng.Intn(len(f)))
+	}
+	return out
+}
+
+// jsonMutations are the mutations at the level of the JSON document.
+func (d *driver) jsonMutations(rng *rand.Rand, b *base, foreign *base, foreignPub []byte) (out []bmut) {
+	k := b.ref
+	fs := fieldsOf(k)
+	add := func(desc string, file []byte) { out = append(out, bmut{"mut-json", desc, file}) }
+	rnd := func(n int) []byte { x := make([]byte, n); rng.Read(x); return x }
+	x1 := func(v []byte, i int) []byte {
+		g := append([]byte{}, v...)
+		if len(g) > 0 {
+			g[(i+len(g))%len(g)] ^= 1
+		}
+		return g
+	}
+	// pub_key
+	add("pub_key=another-key's-public-key", buildJSON(withField(fs, "pub_key", b64(foreignPub))))
+	add("pub_key=32-zero-bytes", buildJSON(withField(fs, "pub_key", b64(make([]byte, 32)))))
+	add("pub_key=saved-key-with-one-bit-flipped", buildJSON(withField(fs, "pub_key", b64(x1(k.Pub, 0)))))
+	for _, n := range []int{0, 1, 31, 33, 64} {
+		add(fmt.Sprintf("pub_key=%d-bytes", n), buildJSON(withField(fs, "pub_key", b64(rnd(n)))))
+	}
+	// every field: deleted, empty string, null, wrong type, invalid base64
+	for _, name := range []string{"priv_key_encrypted", "nonce", "pub_key", "salt"} {
+		add("delete "+name, buildJSON(withoutField(fs, name)))
+		add(name+`=""`, buildJSON(withField(fs, name, `""`)))
+		add(name+"=null", buildJSON(withField(fs, name, `null`)))
+		add(name+"=number", buildJSON(withField(fs, name, `12345`)))
+		add(name+"=array", buildJSON(withField(fs, name, `[1,2,3]`)))
+		add(name+"=object", buildJSON(withField(fs, name, `{"a":"b"}`)))
+		add(name+"=not-base64", buildJSON(withField(fs, name, `"!!!!"`)))
+	}
+	// salt
+	add("salt=random-16", buildJSON(withField(fs, "salt", b64(rnd(16)))))
+	if len(k.Salt) > 0 {
+		add("salt=first-bit-flipped", buildJSON(withField(fs, "salt", b64(x1(k.Salt, 0)))))
+		add("salt=last-bit-flipped", buildJSON(withField(fs, "salt", b64(x1(k.Salt, -1)))))
+		add("salt=truncated-15", buildJSON(withField(fs, "salt", b64(k.Salt[:15]))))
+		add("salt=extended-17", buildJSON(withField(fs, "salt", b64(append(append([]byte{}, k.Salt...), 0)))))
+	}
+	for _, n := range []int{1, 8, 32, 64} {
+		add(fmt.Sprintf("salt=random-%d", n), buildJSON(withField(fs, "salt", b64(rnd(n)))))
+	}
+	// nonce
+	add("nonce=random-12", buildJSON(withField(fs, "nonce", b64(rnd(12)))))
+	add("nonce=first-bit-flipped", buildJSON(withField(fs, "nonce", b64(x1(k.Nonce, 0)))))
+	for _, n := range []int{1, 11, 13, 16, 24} {
+		v := rnd(n)
+		copy(v, k.Nonce)
+		add(fmt.Sprintf("nonce=%d-bytes", n), buildJSON(withField(fs, "nonce", b64(v))))
+	}
+	// sealed private key
+	add("priv_key_encrypted=tag-bit-flipped", buildJSON(withField(fs, "priv_key_encrypted", b64(x1(k.Enc, -1)))))
+	add("priv_key_encrypted=first-bit-flipped", buildJSON(withField(fs, "priv_key_encrypted", b64(x1(k.Enc, 0)))))
+	for _, n := range []int{1, 15, 16, 17, 64} {
+		if len(k.Enc) > n {
+			add(fmt.Sprintf("priv_key_encrypted=%d-bytes-cut", n), buildJSON(withField(fs, "priv_key_encrypted", b64(k.Enc[:len(k.Enc)-n]))))
+		}
+	}
+	add("priv_key_encrypted=one-byte-appended", buildJSON(withField(fs, "priv_key_encrypted", b64(append(append([]byte{}, k.Enc...), 0)))))
+	add("priv_key_encrypted=16-bytes", buildJSON(withField(fs, "priv_key_encrypted", b64(rnd(16)))))
+	if foreign != nil {
+		add("priv_key_encrypted=another-file's", buildJSON(withField(fs, "priv_key_encrypted", b64(foreign.ref.Enc))))
+		add("priv_key_encrypted+nonce=another-file's", buildJSON(withField(withField(fs, "priv_key_encrypted", b64(foreign.ref.Enc)), "nonce", b64(foreign.ref.Nonce))))
+	}
+	// harmless rewrites (must still be the same key, or fail)
+	add("extra-unknown-field", buildJSON(append(append([]jfield{}, fs...), jfield{"comment", `"x"`})))
+	var pretty bytes.Buffer
+	if json.Indent(&pretty, b.File, "", "  ") == nil {
+		add("pretty-printed", pretty.Bytes())
+	}
+	rev := append([]jfield{}, fs...)
+	sort.SliceStable(rev, func(i, j int) bool { return i > j })
+	add("fields-reversed", buildJSON(rev))
+	up := []jfield{}
+	for _, f := range fs {
+		up = append(up, jfield{strings.ToUpper(f.k), f.raw})
+	}
+	add("field-names-upper-case", buildJSON(up))
+	add("trailing-newline", append(append([]byte{}, b.File...), '\n'))
+	add("duplicate-pub_key-foreign-first", buildJSON(append([]jfield{{"pub_key", b64(foreignPub)}}, fs...)))
+	add("duplicate-pub_key-foreign-last", buildJSON(append(append([]jfield{}, fs...), jfield{"pub_key", b64(foreignPub)})))
+	add("duplicate-salt-wrong-last", buildJSON(append(append([]jfield{}, fs...), jfield{"salt", b64(rnd(16))})))
+	add("duplicate-nonce-empty-last", buildJSON(append(append([]jfield{}, fs...), jfield{"nonce", `""`})))
+	// whole-document shapes
+	for _, s := range []string{``, `null`, `{}`, `[]`, `""`, `0`, `true`, `{"priv_key_encrypted":{}}`, `{"nonce":"AAAAAAAAAAAAAAAA"}`, `{"salt":"AAAAAAAAAAAAAAAAAAAAAA=="}`} {
+		add("document="+s, []byte(s))
+	}
+	add("document=bom+file", append([]byte{0xef, 0xbb, 0xbf}, b.File...))
+	add("document=file+garbage", append(append([]byte{}, b.File...), 'x'))
+	add("document=file+file", append(append([]byte{}, b.File...), b.File...))
+	add("document=array-of-file", append(append([]byte{'['}, b.File...), ']'))
+	add("document=100000-open-brackets", bytes.Repeat([]byte{'['}, 100000))
+	add("document=100000-nested-objects", append(bytes.Repeat([]byte(`{"salt":`), 100000), '1'))
+	return out
+}
+
+func (d *driver) genMutations(rng *rand.Rand, b *base, foreign *base, foreignPub []byte, exportEvery int) (out []*meta) {
+	p := d.passes[b.Pass]
+	muts := d.byteMutations(rng, b)
+	nbyte := len(muts)
+	muts = append(muts, d.jsonMutations(rng, b, foreign, foreignPub)...)
+	for i, mu := range muts {
+		ops := []string{"load"}
+		jsonExport := !d.r.Quick() || i%4 == 0
+		if b.Priv != nil && ((i >= nbyte && jsonExport) || exportEvery <= 1 || i%exportEvery == 0) {
+			ops = append(ops, "export")
+		}
+		for _, op := range ops {
+			m := &meta{Group: mu.group, Desc: mu.desc, Expect: "fail-or-same", b: b}
+			m.nontrivial = len(mu.file) > 0 && !bytes.Equal(mu.file, b.File)
+			m.classify(mu.file, p)
+			if op == "export" {
+				m.T2 = false // export does not read pub_key
+			}
+			out = append(out, d.newCase(m, op, mu.file, true, b.Pass, d.msg(rng)))
+		}
+	}
+	return out
+}
 
 // Run is the check entry point.
 func Run(r *vk.Run) {
-	r.Rule = "not implemented yet"
+	world.Silence()
+	r.Rule = "cases = (genuine key file, operation load|export, passphrase, mutation). Genuine files: created by CreateFileSystemSigner, written by ImportPrivateKey after ExportPrivateKey, and salt-less legacy files sealed by the harness from the documented legacy derivation; passphrase classes empty, 1, 32, 33, 10000 bytes, non-UTF-8 (thorough: + 2,16,31,64,1000 bytes and 3 random binary). " +
+		"ENUMERATED COMPLETELY in thorough for every genuine file: every byte position x {0x00, 0xFF, bit flips} and every truncation length 0..len-1 (all 8 bit flips on the created and legacy files of the six statement classes, one seeded bit on imported files and on the extra classes), plus the fixed list of JSON-level mutations (foreign/short/long/empty pub_key, each field deleted/empty/null/wrong type/invalid base64, salt and nonce changed or resized, sealed key cut/extended/foreign, duplicates, reordered, whole-document shapes) and the fixed list of wrong passphrases (empty, appended, dropped, bit flipped, doubled, zeros, prefixes, case swapped, random). " +
+		"In quick the byte positions and truncation lengths are a seeded STRATIFIED SAMPLE (3 positions per field name, 8 per field value incl. first/last, 6 structural; truncation at each stratum boundary + random) on all created and legacy files and three of the six imported files; JSON-level and passphrase lists are complete (export: every 4th JSON-level and every 6th byte-level mutation). " +
+		"A case is non-trivial when the file is non-empty and not a verbatim genuine file, or the passphrase differs from the sealing one; distinct by (file kind, passphrase class, operation, mutation kind+position | wrong-passphrase kind). Cases inside the trigger regions of the listed findings are classified before the run from the case alone (independent parse of the mutated file)."
+	r.Assume("oracle uses crypto/ed25519, crypto/sha256, crypto/aes+cipher (legacy sealing only) and encoding/json of the standard library; it never calls /repo code")
+	r.Assume("key material of files created by CreateFileSystemSigner / ImportPrivateKey comes from crypto/rand in the code under test: the case list (positions, kinds, passphrases, legacy files) is a function of the seed, those file bytes are not; witnesses carry the concrete bytes")
+	r.Assume("legacy format: two passphrases with the same documented derived key (same first 32 bytes, or a short passphrase and its 32-byte expansion) are the same secret by construction of the format; such pairs are observed, not judged")
+	r.Assume("every load/export/create/import runs in a child process under recover; a dead child is attributed to the journalled input")
+
+	dir := world.TempDir(vk.Root(), "C19-*")
+	defer os.RemoveAll(dir)
+	d := &driver{r: r, metas: map[int]*meta{}, findN: map[string]int{}}
+	thorough := !r.Quick()
+
+	// ---- round 1: chains over genuine files --------------------------------------------------
+	crng := r.Rand("classes")
+	cls := classes(crng, thorough)
+	lrng := r.Rand("legacy")
+	var chains []*meta
+	legacyPriv := map[int]ed25519.PrivateKey{}
+	for i, c := range cls {
+		pi := d.addPass(c.p)
+		// salted: create under p, import under the next class's passphrase
+		q := cls[(i+1)%len(cls)].p
+		m := &meta{Group: "chain", Desc: c.name, Expect: "same", b: &base{Class: c.name, Core: c.core}}
+		d.newCase(m, "chain", nil, false, pi, d.msg(crng))
+		m.c.Pas2 = d.addPass(q)
+		m.qClass = cls[(i+1)%len(cls)].name
+		chains = append(chains, m)
+		if thorough && i%3 == 0 {
+			// import under the same passphrase as well
+			m := &meta{Group: "chain", Desc: c.name, Expect: "same", b: &base{Class: c.name + "(same-q)", Core: false}}
+			d.newCase(m, "chain", nil, false, pi, d.msg(crng))
+			m.c.Pas2 = pi
+			m.qClass = c.name + "(same-q)"
+			chains = append(chains, m)
+		}
+		if len(c.p) == 0 {
+			continue // the legacy derivation is undefined for the empty passphrase
+		}
+		priv := newKey(lrng)
+		lf := sealLegacy(lrng, priv, c.p)
+		ml := &meta{Group: "chain", Desc: c.name, Expect: "same", b: &base{Class: c.name, Core: c.core}}
+		d.newCase(ml, "chain", lf, true, pi, d.msg(crng))
+		ml.c.Pas2 = d.addPass(q)
+		ml.qClass = cls[(i+1)%len(cls)].name
+		legacyPriv[ml.c.ID] = priv
+		chains = append(chains, ml)
+	}
+	run := func(ms []*meta) map[int]caseObs {
+		pb, _ := json.Marshal(d.passes)
+		_ = os.WriteFile(filepath.Join(dir, "passes.json"), pb, 0o644)
+		cs := make([]*wireCase, len(ms))
+		for i, m := range ms {
+			cs[i] = m.c
+		}
+		res, restarts := runPool(dir, d.passes, cs)
+		r.Count("child_restarts", int64(restarts))
+		return res
+	}
+	res := run(chains)
+	var bases []*base
+	for _, m := range chains {
+		o, ok := res[m.c.ID]
+		if !ok {
+			r.Inconclusive(fmt.Sprintf("chain %d: no result", m.c.ID))
+			continue
+		}
+		bs := d.judgeChain(m, o, legacyPriv[m.c.ID])
+		for _, b := range bs {
+			if strings.Contains(b.Name, "(same-q)") {
+				continue
+			}
+			if k, ok := parseRef(b.File); ok {
+				b.ref = k
+				b.spans, _ = layoutOf(b.File)
+				bases = append(bases, b)
+				r.Count("genuine_files:"+b.Kind, 1)
+			} else {
+				r.Violation("correct-passphrase-loads-same-key", "key file written by the code under test is not in the documented JSON layout", map[string]any{"file": string(b.File), "base": b.Name})
+			}
+		}
+		r.Eval("chain|"+m.Desc+"|"+fmt.Sprint(m.c.Has), false, nil)
+	}
+	r.Set("genuine_file_length", func() map[string]int {
+		o := map[string]int{}
+		for _, b := range bases {
+			o[b.Name] = len(b.File)
+		}
+		return o
+	}())
+
+	// ---- round 2: loads and exports over genuine and mutated files ------------------------------
+	grng := r.Rand("cases")
+	var cases []*meta
+	for i, b := range bases {
+		// another genuine file of the same kind (for foreign sealed keys) and a foreign public key
+		var foreign *base
+		for j := 1; j < len(bases); j++ {
+			if o := bases[(i+j)%len(bases)]; o.Kind == b.Kind && !bytes.Equal(o.Pub, b.Pub) {
+				foreign = o
+				break
+			}
+		}
+		foreignPub := []byte(newKey(grng).Public().(ed25519.PublicKey))
+		// the genuine file once more, verbatim (trivial case)
+		for _, op := range []string{"load", "export"} {
+			if op == "export" && b.Priv == nil {
+				continue
+			}
+			m := &meta{Group: "same-pass", Desc: "verbatim", Expect: "same", b: b}
+			cases = append(cases, d.newCase(m, op, b.File, true, b.Pass, d.msg(grng)))
+		}
+		cases = append(cases, d.genWrongPass(grng, b)...)
+		if !thorough && b.Kind == "imported" && b.Class != "empty" && b.Class != "32-bytes" && b.Class != "10000-bytes" {
+			continue // quick: mutations on three of the six imported files
+		}
+		exportEvery := 6
+		if thorough {
+			exportEvery = 10
+			if b.Core && (b.Class == "32-bytes" || b.Class == "empty") {
+				exportEvery = 1
+			}
+		}
+		cases = append(cases, d.genMutations(grng, b, foreign, foreignPub, exportEvery)...)
+	}
+	res = run(cases)
+	outcomes := map[string]int64{}
+	sampled := map[string]bool{}
+	for _, m := range cases {
+		o, ok := res[m.c.ID]
+		if !ok {
+			r.Inconclusive(fmt.Sprintf("case %d: no result", m.c.ID))
+			continue
+		}
+		out := d.judge(m, o)
+		reg := m.region()
+		outcomes[m.Group+"/"+m.c.Op+"/"+reg+" -> "+out]++
+		r.Count("cases:"+m.Group, 1)
+		if reg != "clean" {
+			r.Count("cases_in_"+reg, 1)
+		} else {
+			r.Count("cases_in_clean_region", 1)
+		}
+		var sample any
+		sk := m.Group + "/" + out
+		if !sampled[sk] {
+			sampled[sk] = true
+			sample = map[string]any{"base": m.b.Name, "op": m.c.Op, "group": m.Group, "mutation": m.Desc, "region": reg, "file": fmt.Sprintf("%q", trunc(m.c.File, 300)), "passphrase": passLabel(d.passes[m.c.Pass]), "outcome": out}
+		}
+		r.Eval(fmt.Sprintf("%s|%s|%s|%s|%s", m.b.Kind, m.b.Class, m.c.Op, m.Group, m.Desc), m.nontrivial, sample)
+	}
+	r.Set("outcomes", outcomes)
+
+	n := int64(len(cls))
+	r.Require("correct-passphrase-loads-same-key", 3*n)
+	r.Require("signature-verifies", 4*n)
+	r.Require("address-matches", 4*n)
+	r.Require("address-matches-noop", n)
+	r.Require("export-import-preserves-key", 2*n)
+	r.Require("export-is-the-key", n)
+	r.Require("file-hides-key", n)
+	r.Require("legacy-file-loads", n-1)
+	r.Require("wrong-passphrase-fails", 10*n)
+	r.Require("mutation-fails-or-same-key", int64(r.N(1500, 20000)))
+	r.Require("no-panic", int64(r.N(2000, 25000)))
 }
